@@ -28,6 +28,8 @@ const (
 	cacheSlack     = 8 // handshake cache may exceed the default run's maximum by this much
 )
 
+var errInjectedSend = errors.New("injected transient send error")
+
 // spec identifies one case.
 type spec struct {
 	v              variant
@@ -36,6 +38,11 @@ type spec struct {
 	fam            string // family, or "probe" (all suspects of all families, each on its own connection)
 	thorough       bool
 	seed           uint64
+	// wf: the victim's transport fails the next WriteTo once (a transient local send error such as ENOBUFS) at
+	// the moment each hostile datagram arrives: whatever the datagram makes the endpoint send — a re-sent final
+	// flight, an alert, a cookie request — does not leave. Established endpoints only: a transport error may end
+	// a handshake in progress, it may not turn a hostile datagram into a wedge of an established association.
+	wf bool
 }
 
 func (s spec) id() string {
@@ -43,7 +50,11 @@ func (s spec) id() string {
 	if s.victimIsClient {
 		side = "client"
 	}
-	return fmt.Sprintf("%s/%s/%s/%s", s.v.Name, side, pointName(s.k), s.fam)
+	id := fmt.Sprintf("%s/%s/%s/%s", s.v.Name, side, pointName(s.k), s.fam)
+	if s.wf {
+		id += "+sendfail"
+	}
+	return id
 }
 
 // finding is one violated clause with its cause key.
@@ -433,7 +444,6 @@ func (r *runner) segment(list []*input, from int, single bool) int {
 		isFlood := strings.HasPrefix(r.sp.fam, "flood-") // a flood is one sequence: it goes on whatever is accepted
 		dead := false
 		stalled := false
-		_ = stalled
 		sinceStart := 0
 		visits := 0
 		usedForger := false
@@ -471,8 +481,14 @@ func (r *runner) segment(list []*input, from int, single bool) int {
 				w.Logf("INJECT %s [%s %s] %s %s", in.id(), in.class, in.verdict, in.desc, clipHex(data, 48))
 			}
 			storm.arm(caseID, in)
+			if r.sp.wf {
+				victim.PC.FailNextWrites(1, errInjectedSend)
+			}
 			w.Push(peer.Addr, victim.Addr, data)
 			w.Settle()
+			if r.sp.wf {
+				victim.PC.FailNextWrites(0, nil) // an unused failure does not carry over to genuine traffic
+			}
 			storm.disarm()
 			r.res.injected++
 			r.res.classes[in.class]++
@@ -549,10 +565,21 @@ func (r *runner) segment(list []*input, from int, single bool) int {
 				// reached. Never done after must-survive-only chains: there a poisoned window IS a finding.
 				bumpEpoch0(peer, injectedSeqCeiling)
 			}
-			why := r.continuation(cx, reader, rl, allMustSurvive)
+			// A read loop that has stopped taking datagrams off the socket while the endpoint is neither closed nor
+			// failed is a wedge whatever the class of the inputs: an input that may end the association ends it
+			// (closed, calls return) — it does not leave it open and deaf.
+			strict := allMustSurvive || stalled
+			why := r.continuation(cx, reader, rl, strict)
 			switch {
 			case why == "":
 				r.res.finalOK++
+			case !strict:
+				r.res.count("lenient_chain_did_not_recover", 1)
+			case !allMustSurvive:
+				r.res.count("established_chain_did_not_recover", 1)
+				wedged = append([]*input(nil), injectedHere...)
+				wedgeWhy = why
+				wedgeState = fmt.Sprintf("client=%v server=%v fsm client=%q server=%q", pr.C.HS, pr.S.HS, pr.C.Log.LastFSM(), pr.S.Log.LastFSM())
 			case allMustSurvive:
 				wedged = append([]*input(nil), injectedHere...)
 				wedgeWhy = why
